@@ -50,11 +50,15 @@ pub fn complete(
             return complete_arg(&arg, current_cmd, current_dir, pos_index, current_state);
         }
 
-        if let Ok(value) = arg.to_value() {
-            if let Some(next_cmd) = current_cmd.find_subcommand(value) {
-                current_cmd = next_cmd;
-                pos_index = 1;
-                continue;
+        // Like the parser, only look for a subcommand where a new argument may start: a word that is
+        // the value of a pending option or of a positional still taking values is not a subcommand
+        if matches!(current_state, ParseState::ValueDone) {
+            if let Ok(value) = arg.to_value() {
+                if let Some(next_cmd) = current_cmd.find_subcommand(value) {
+                    current_cmd = next_cmd;
+                    pos_index = 1;
+                    continue;
+                }
             }
         }
 
